@@ -1,6 +1,160 @@
-//! C08 harness commands (stub).
-use std::io::Write;
+//! C08: value expressions through the REAL parser and evaluator.
+//!
+//! `hx c08` : line `<position> <enc expr text>`
+//!   eval    : `Ledger::eval(&ctx, text, &EvalContext{date, exchange: None})` on a ledger declaring commodities A B C D
+//!   amount  : posting `X    <expr>` / `Y`            -> amount of the first posting in `Ledger::transactions()`
+//!   cost    : posting `X    1 C @ <expr>` / `Y`      -> converted amount of the first posting
+//!   lot     : posting `X    1 C {<expr>}` / `Y`      -> converted amount of the first posting
+//!   balance : posting `X    = <expr>` / `Y`          -> amount of the first posting (balance assignment from zero)
+//! Record: `tree=<sexp of the ValueExpr the real parser built | -> res=(ok ((COMMODITY NEG MANT SCALE)...)) | (err KIND..) | (parse-err) | (panic MSG)`
+use std::io::{BufRead, Write};
+use std::panic::AssertUnwindSafe;
 
-pub fn run(_args: &[String], _out: &mut dyn Write) -> i32 {
+use bumpalo::Bump;
+use okane_core::report::{self, query, ReportContext};
+use okane_core::syntax::{self, expr};
+
+use crate::proc;
+use crate::sx::{self, enc};
+use crate::tree;
+
+const DECLS: &str = "commodity A\n\ncommodity B\n\ncommodity C\n\ncommodity D\n\n";
+
+fn head(dbg: &str) -> String {
+    dbg.split(['(', ' ', '{']).next().unwrap_or("?").to_string()
+}
+
+fn ledger_text(pos: &str, e: &str) -> Option<String> {
+    let body = match pos {
+        "amount" => e.to_string(),
+        "cost" => format!("1 C @ {}", e),
+        "lot" => format!("1 C {{{}}}", e),
+        "balance" => format!("= {}", e),
+        _ => return None,
+    };
+    Some(format!("2024/01/01 x\n    X    {}\n    Y\n", body))
+}
+
+fn tree_of(pos: &str, text: &str) -> String {
+    let entries = match tree::parse_plain(text) {
+        Ok(es) => es,
+        Err(_) => return "-".to_string(),
+    };
+    for e in &entries {
+        if let syntax::LedgerEntry::Txn(t) = e {
+            let p = match t.posts.first() {
+                Some(p) => p,
+                None => return "-".to_string(),
+            };
+            let v: Option<&expr::ValueExpr> = match pos {
+                "amount" => p.amount.as_ref().map(|a| &a.amount),
+                "cost" => p.amount.as_ref().and_then(|a| a.cost.as_ref()).map(|x| match x {
+                    syntax::Exchange::Rate(v) | syntax::Exchange::Total(v) => v,
+                }),
+                "lot" => p.amount.as_ref().and_then(|a| a.lot.price.as_ref()).map(|x| match x {
+                    syntax::Exchange::Rate(v) | syntax::Exchange::Total(v) => v,
+                }),
+                "balance" => p.balance.as_ref(),
+                _ => None,
+            };
+            return v.map(tree::vexpr).unwrap_or_else(|| "-".to_string());
+        }
+    }
+    "-".to_string()
+}
+
+fn ledger_record(pos: &str, e: &str) -> String {
+    let text = match ledger_text(pos, e) {
+        Some(t) => t,
+        None => return "bad-case".to_string(),
+    };
+    let full = format!("{}{}", DECLS, text);
+    let pos2 = pos.to_string();
+    let text2 = text.clone();
+    let tr = sx::catch(move || tree_of(&pos2, &text2)).unwrap_or_else(|m| format!("(panic {})", enc(&m)));
+    let pos3 = pos.to_string();
+    let r = sx::catch(move || {
+        let arena = Bump::new();
+        let mut ctx = ReportContext::new(&arena);
+        let files: proc::Files = vec![("/r/main.ledger".to_string(), full)];
+        let opts = report::ProcessOptions { price_db_path: None };
+        let res = report::process(&mut ctx, proc::fake_loader(&files, "/r/main.ledger"), &opts);
+        let rec = match res {
+            Ok(ledger) => match ledger.transactions().next() {
+                None => "(no-txn)".to_string(),
+                Some(t) => {
+                    let p = &t.postings[0];
+                    match pos3.as_str() {
+                        "amount" | "balance" => format!("(ok {})", proc::amount_sx(&p.amount)),
+                        _ => match p.converted_amount.as_ref() {
+                            Some(s) => format!("(ok ({}))", proc::single_sx(s)),
+                            None => "(no-converted)".to_string(),
+                        },
+                    }
+                }
+            },
+            Err(report::ReportError::BookKeep(be, _)) => format!("(err {})", proc::bk_err_sx(&format!("{:?}", be), &[])),
+            Err(report::ReportError::Load(_)) => "(parse-err)".to_string(),
+            Err(e) => format!("(other-err {})", enc(&e.to_string())),
+        };
+        rec
+    });
+    match r {
+        Ok(s) => format!("tree={} res={}", tr, s),
+        Err(m) => format!("tree={} res=(panic {})", tr, enc(&m)),
+    }
+}
+
+pub fn run(_args: &[String], out: &mut dyn Write) -> i32 {
+    // shared ledger for the `eval` position
+    let arena = Bump::new();
+    let mut ctx = ReportContext::new(&arena);
+    let files: proc::Files = vec![("/r/main.ledger".to_string(), DECLS.to_string())];
+    let opts = report::ProcessOptions { price_db_path: None };
+    let mut ledger = match report::process(&mut ctx, proc::fake_loader(&files, "/r/main.ledger"), &opts) {
+        Ok(l) => l,
+        Err(e) => {
+            eprintln!("cannot set up the eval ledger: {}", e);
+            return 3;
+        }
+    };
+    let ectx = query::EvalContext {
+        date: chrono::NaiveDate::from_ymd_opt(2024, 1, 2).unwrap(),
+        exchange: None,
+    };
+    let stdin = std::io::stdin();
+    for line in stdin.lock().lines() {
+        let line = line.unwrap();
+        let ws: Vec<&str> = line.split(' ').filter(|w| !w.is_empty()).collect();
+        let rec = match ws.as_slice() {
+            [pos, t] => match sx::dec(t) {
+                None => "bad-case".to_string(),
+                Some(e) => {
+                    if *pos == "eval" {
+                        let e2 = e.clone();
+                        let tr = sx::catch(move || match expr::ValueExpr::try_from(e2.as_str()) {
+                            Ok(v) => tree::vexpr(&v),
+                            Err(_) => "-".to_string(),
+                        })
+                        .unwrap_or_else(|m| format!("(panic {})", enc(&m)));
+                        let r = sx::catch(AssertUnwindSafe(|| match ledger.eval(&ctx, &e, &ectx) {
+                            Ok(a) => format!("(ok {})", proc::amount_sx(&a)),
+                            Err(query::QueryError::ParseFailed(_)) => "(parse-err)".to_string(),
+                            Err(query::QueryError::EvalFailed(ee)) => format!("(err EvalFailure {})", head(&format!("{:?}", ee))),
+                            Err(other) => format!("(other-err {})", enc(&other.to_string())),
+                        }));
+                        match r {
+                            Ok(s) => format!("tree={} res={}", tr, s),
+                            Err(m) => format!("tree={} res=(panic {})", tr, enc(&m)),
+                        }
+                    } else {
+                        ledger_record(pos, &e)
+                    }
+                }
+            },
+            _ => "bad-case".to_string(),
+        };
+        writeln!(out, "{}", rec).unwrap();
+    }
     0
 }
